@@ -124,13 +124,14 @@ def uniqueMaxDistributions (ds : Mat) : Mat :=
 
 /-! ### `check_assignment_feasibility` -/
 
+/-- scan `l[lo], l[lo+1], …` for the first positive entry, at most `fuel` entries -/
+def firstPosFrom (l : List Nat) : Nat → Nat → Option Nat
+  | 0, _ => none
+  | fuel + 1, lo => if 0 < l.getD lo 0 then some lo else firstPosFrom l fuel (lo + 1)
+
 /-- `next(k for k in range(lo, hi) if l[k] > 0)`, `none` on `StopIteration`; `hi ≤ len(l)` at
     every call site, so the default of `getD` is never used -/
-def firstPos (l : List Nat) (lo hi : Nat) : Option Nat :=
-  if lo < hi then
-    if 0 < l.getD lo 0 then some lo else firstPos l (lo + 1) hi
-  else none
-termination_by hi - lo
+def firstPos (l : List Nat) (lo hi : Nat) : Option Nat := firstPosFrom l (hi - lo) lo
 
 /-- inner helper `next_j(i, min_j)`; `w = d - 1`; the Python upper end
     `min(i + (d-1), len(u) - 1) + 1` equals `min (i + w + 1) (len u)` -/
@@ -144,51 +145,24 @@ def nextIAndJ (w : Nat) (rv ru : List Nat) (minI minJ : Nat) : Option Nat × Opt
   | none => (none, some minJ)
   | some i => (some i, nextJ w ru i (max (i - w) minJ))
 
-theorem firstPos_spec {l : List Nat} {lo hi k : Nat} (h : firstPos l lo hi = some k) :
-    lo ≤ k ∧ k < hi ∧ 0 < l.getD k 0 := by
-  fun_induction firstPos l lo hi with
-  | case1 lo hlt hpos => simp at h; subst h; exact ⟨Nat.le_refl _, hlt, hpos⟩
-  | case2 lo hlt hpos ih => have := ih h; exact ⟨by omega, this.2.1, this.2.2⟩
-  | case3 lo hge => simp at h
-
-theorem getD_set_self_zero (l : List Nat) (i : Nat) : (l.set i 0).getD i 0 = 0 := by
-  by_cases h : i < l.length
-  · simp [List.getD, h]
-  · simp [List.getD, h]
-
-set_option linter.unusedVariables false in
-/-- the `while i is not None and j is not None` loop; the result is `j is not None` at exit -/
-def feasLoop (w : Nat) (rv ru : List Nat) (i j : Nat) : Bool :=
-  if rv.getD i 0 ≤ ru.getD j 0 then
-    match h : nextIAndJ w (rv.set i 0) (ru.set j (ru.getD j 0 - rv.getD i 0)) i j with
-    | (none, _) => true
-    | (some _, none) => false
-    | (some i', some j') => feasLoop w (rv.set i 0) (ru.set j (ru.getD j 0 - rv.getD i 0)) i' j'
-  else
-    match h : nextJ w (ru.set j 0) i j with
-    | none => false
-    | some j' => feasLoop w (rv.set i (rv.getD i 0 - ru.getD j 0)) (ru.set j 0) i j'
-termination_by (rv.length - i) + (ru.length - j)
-decreasing_by
-  · simp only [List.length_set]
-    unfold nextIAndJ at h
-    split at h
-    · simp at h
-    · rename_i k hk
-      simp only [Prod.mk.injEq, Option.some.injEq] at h
-      obtain ⟨rfl, hj⟩ := h
-      have h1 := firstPos_spec hk
-      have h2 := firstPos_spec hj
-      simp only [List.length_set] at h1 h2
-      have : k ≠ i := by
-        intro e; subst e; have := h1.2.2; rw [getD_set_self_zero] at this; omega
-      omega
-  · simp only [List.length_set]
-    have h2 := firstPos_spec h
-    simp only [List.length_set] at h2
-    have : j' ≠ j := by
-      intro e; subst e; have := h2.2.2; rw [getD_set_self_zero] at this; omega
-    omega
+/-- the `while i is not None and j is not None` loop; the result is `j is not None` at exit.
+    Every round either moves `i` up (keeping `j`) or moves `j` up (keeping `i`), so
+    `(len rv - i) + (len ru - j) + 1` rounds suffice: the recursion is on that bound (`fuel`), and the
+    `0` case is never reached from `checkAssignmentFeasibility` (`feasLoop_fuel_irrelevant` in
+    `Lemmas/MGHGreedy.lean`); its value `true` ("feasible") is the one that confirms no bound. -/
+def feasLoop (w : Nat) : Nat → List Nat → List Nat → Nat → Nat → Bool
+  | 0, _, _, _, _ => true
+  | fuel + 1, rv, ru, i, j =>
+    if rv.getD i 0 ≤ ru.getD j 0 then
+      match nextIAndJ w (rv.set i 0) (ru.set j (ru.getD j 0 - rv.getD i 0)) i j with
+      | (none, _) => true
+      | (some _, none) => false
+      | (some i', some j') =>
+        feasLoop w fuel (rv.set i 0) (ru.set j (ru.getD j 0 - rv.getD i 0)) i' j'
+    else
+      match nextJ w (ru.set j 0) i j with
+      | none => false
+      | some j' => feasLoop w fuel (rv.set i (rv.getD i 0 - ru.getD j 0)) (ru.set j 0) i j'
 
 /-- `check_assignment_feasibility(v_distribution, u_distribution, d)` for `d ≥ 1` -/
 def checkAssignmentFeasibility (v u : List Nat) (d : Nat) : Bool :=
@@ -197,7 +171,7 @@ def checkAssignmentFeasibility (v u : List Nat) (d : Nat) : Bool :=
   match nextIAndJ (d - 1) rv ru 0 0 with
   | (none, _) => true
   | (some _, none) => false
-  | (some i, some j) => feasLoop (d - 1) rv ru i j
+  | (some i, some j) => feasLoop (d - 1) (rv.length + ru.length + 1) rv ru i j
 
 /-! ### confirming a lower bound with a bounded curvature -/
 
